@@ -99,7 +99,7 @@ def _items(es, with_arg):
     out = []
     for e in es or []:
         t = _tup(e)
-        if t[0] == "code" and t[1] == "visit_last_label":
+        if t[0] == "code" and (t[1] == "visit_last_label" or (t[1] == "visit_local_variables" and t[5] == "")):
             continue
         out.append(t if with_arg and len(t) == 8 else t[:7])
     return out
